@@ -628,7 +628,7 @@ def S2_estimator(rep, flow: Flow):
                 raise AnalysisError(f"{pyfacts.where(f, test)}: parity test outside the recognised idioms [{ast.unparse(test)}]")
             odd_when_true, how = r
             if how != "and":
-                rep.finding("S2", f"{A_ESTIMATOR}:parity-operands", f"{pyfacts.where(f, test)}: the parity is taken of `{ast.unparse(test)}` - it must be popcount(mask & outcome) ({how})")
+                rep.finding("S2", f"{A_ESTIMATOR}:parity-operands:{truth}", f"{pyfacts.where(f, test)}: the parity is taken of `{ast.unparse(test)}` - it must be popcount(mask & outcome) ({how})")
                 parity = "bad"
             else:
                 parity = "odd" if odd_when_true == truth else "even"
